@@ -144,6 +144,9 @@ func (h *handler) Read(s *stcp.Session) error {
 	if r != nil && r.sess.Load() == nil {
 		setRetired(fmt.Sprintf("%p", s), false)
 		r.sess.Store(s)
+		if r.fc == nil {
+			r.started.Store(true) // handed to SessionMgr.Do by the accept loop itself (no wrapper in between)
+		}
 	}
 	var b [1]byte
 	if err := s.Read(b[:]); err != nil {
@@ -239,10 +242,14 @@ type world struct {
 	amax     int // WithAccMaxRetry
 	plug     fdPlug
 	handlers map[int]*handler
-	fdUsed   bool      // Accept failures were provoked since phaseT0
-	phaseT0  time.Time // start of the current phase
-	aborted  string    // the scenario could not be set up as intended (fd table): drop it
-	slowExit bool      // the exit callback takes 300 us
+	fdUsed   bool           // Accept failures were provoked since phaseT0
+	phaseT0  time.Time      // start of the current phase
+	aborted  string         // the scenario could not be set up as intended (fd table): drop it
+	rawMgr   bool           // the server is given the real SessionMgr itself: accepted *net.TCPConn reach SessionMgr.Do unwrapped
+	lateRead bool           // peers of accepted connections do not read until told (PeerRead)
+	decoys   []*stcp.Server // other servers of this process, started with other options, idle
+	srvPtr   string
+	slowExit bool // the exit callback takes 300 us
 }
 
 // watchdog measures how late a 2 ms tick can be in this process while a scenario runs: the scheduling latency the
@@ -314,7 +321,12 @@ func (w *world) startServer(maxc int32) error {
 		}
 		addr := l.Addr().String()
 		_ = l.Close()
-		srv := stcp.NewTCPSrv(addr, &connMgr{w: w})
+		var cm stcp.IConnMgr = &connMgr{w: w}
+		if w.rawMgr {
+			cm = w.mgr
+		}
+		srv := stcp.NewTCPSrv(addr, cm)
+		ptr := fmt.Sprintf("%p", srv)
 		w.server = true
 		ch := srv.Start(stcp.WithMaxConn(maxc), stcp.WithAccDelay(accDelay), stcp.WithAccMaxDelay(accMaxDelay),
 			stcp.WithAccMaxRetry(w.amax), stcp.WithLogger(ulog.GetDefaultLogger()))
@@ -326,10 +338,10 @@ func (w *world) startServer(maxc int32) error {
 			default:
 			}
 			c := takeCensus()
-			return c.acceptors == 1 && c.allParked
+			return c.acc[ptr] == 1 && c.allParked
 		})
 		if ok && startErr == nil {
-			w.srv, w.srvAddr, w.srvErr = srv, addr, ch
+			w.srv, w.srvAddr, w.srvErr, w.srvPtr = srv, addr, ch, ptr
 			return nil
 		}
 		if !ok {
@@ -345,8 +357,46 @@ func (w *world) stopServer() {
 		return
 	}
 	_ = w.srv.Close()
+	for _, d := range w.decoys {
+		_ = d.Close()
+	}
+	w.decoys = nil
 	waitFor(10*time.Second, func() bool { return takeCensus().acceptors == 0 })
 	w.srv = nil
+}
+
+// startDecoy starts one more server in this process, with options of its own, and leaves it idle.  Every server must
+// go by the options it was started with, whatever is started before or after it.
+func (w *world) startDecoy(maxc int32, retry int) error {
+	for attempt := 0; attempt < 20; attempt++ {
+		l, err := net.Listen("tcp", "127.0.0.1:0")
+		if err != nil {
+			return err
+		}
+		addr := l.Addr().String()
+		_ = l.Close()
+		srv := stcp.NewTCPSrvX(addr, &handler{w: w, id: 999})
+		ptr := fmt.Sprintf("%p", srv)
+		ch := srv.Start(stcp.WithMaxConn(maxc), stcp.WithAccMaxRetry(retry), stcp.WithAccDelay(50*time.Microsecond), stcp.WithAccMaxDelay(100*time.Microsecond))
+		var startErr error
+		ok := waitFor(10*time.Second, func() bool {
+			select {
+			case startErr = <-ch:
+				return true
+			default:
+			}
+			c := takeCensus()
+			return c.acc[ptr] == 1 && c.allParked
+		})
+		if ok && startErr == nil {
+			w.decoys = append(w.decoys, srv)
+			return nil
+		}
+		if !ok {
+			return fmt.Errorf("decoy accept loop did not park in Accept")
+		}
+	}
+	return fmt.Errorf("no free port")
 }
 
 // connPair makes a connected pair (session side, peer side).
@@ -385,9 +435,11 @@ func (w *world) maxFails() int {
 }
 
 // acceptBackingOff: the accept goroutine sleeps in its error handler (a failed Accept has happened)
+var acceptPtr string // the server whose accept loop the current scenario watches
+
 func acceptBackingOff() bool {
 	for _, g := range allGoroutines() {
-		if strings.Contains(g.body, fnLoopAccept) && g.state == "sleep" {
+		if strings.Contains(g.body, fnLoopAccept) && g.state == "sleep" && (acceptPtr == "" || frameRecv(g.body, fnLoopAccept) == acceptPtr) {
 			return true
 		}
 	}
@@ -510,9 +562,14 @@ func (w *world) issue(l *label, natural bool) error {
 		r.addr = c.LocalAddr().String()
 		w.sess = append(w.sess, r)
 		w.byAddr[r.addr] = r
+		if w.rawMgr {
+			w.byName[r.addr] = r // the session reports its connection's real remote address
+		}
 		w.mu.Unlock()
 		r.peer = c
-		r.startReading()
+		if !w.lateRead {
+			r.startReading()
+		}
 		return nil
 	}
 	w.mu.Lock()
@@ -521,7 +578,7 @@ func (w *world) issue(l *label, natural bool) error {
 		r = w.sess[l.i]
 	}
 	w.mu.Unlock()
-	if r == nil || r.sess.Load() == nil || r.fc == nil {
+	if r == nil || r.sess.Load() == nil || (r.fc == nil && !w.rawMgr) {
 		// only possible when a stored scenario is replayed and a race went the other way this time
 		return errDiverged
 	}
@@ -549,6 +606,8 @@ func (w *world) issue(l *label, natural bool) error {
 		_ = r.peer.Close()
 	case aPeerRead:
 		r.startReading()
+	case aPeerPause:
+		// the peer of this connection has not been reading (lateRead): nothing to do but to say so to the model
 	case aPeerByte:
 		go r.peerWrite('d')
 	case aRecvFault:
@@ -589,7 +648,7 @@ func (w *world) issue(l *label, natural bool) error {
 // observe reads what the property names; ready=false while something is still on its way (an accepted connection not
 // yet handed over or refused, a session whose pointer the handler has not seen, the bytes in front of a FIN).
 func (w *world) observe(c census) (obsAll, bool) {
-	o := obsAll{Cnt: int64(w.mgr.ConnCount()), Loop: !w.server || c.acceptors > 0}
+	o := obsAll{Cnt: int64(w.mgr.ConnCount()), Loop: !w.server || c.acc[w.srvPtr] > 0}
 	ready := c.unknown == 0
 	w.mu.Lock()
 	sess := append([]*realSess{}, w.sess...)
@@ -614,7 +673,15 @@ func (w *world) observe(c census) (obsAll, bool) {
 				x.SendL = c.send[p]
 				x.RecvL = c.recv[p]
 			}
-			x.Closed = r.fc.closed()
+			if r.fc != nil {
+				x.Closed = r.fc.closed()
+			} else {
+				// no wrapper around this connection: it is closed when the peer has read to the end of the stream
+				x.Closed = saw
+				if !saw && reading && x.OnExit > 0 {
+					ready = false
+				}
+			}
 			if x.Closed && r.tr == trTcp && reading && !saw {
 				ready = false // the peer has not yet read up to the end of the stream
 			}
